@@ -263,6 +263,9 @@ func mediumFamily(thorough bool, add func(File, error)) {
 	add(spzMedium(2, 1, 2000))
 	add(ptsMedium(7, 600), nil)
 	add(splatMedium(600), nil)
+	// one record more than 2^12 (plus 3): batch / chunk sizes are powers of two
+	add(stlMedium(4096+3), nil)
+	add(splatMedium(4096+3), nil)
 	if thorough {
 		add(plyMedium("cloud", 0, 2500, 0)) // ascii body beyond 64 KB
 		add(plyMedium("cloud", 1, 2500, 0))
